@@ -527,6 +527,15 @@ class LookupCorr(Corr):
                                                  "object_stamps": [repr(x["time"]) for x in r_int.get("objs", [])][:4]})
             q["mgr_now"] = "same" if m_now == o_now else m_now
             q["mgr_interp"] = "same" if m_int == o_int else m_int
+            if qi % 2 == 1:
+                # the same time asked twice in a row under two tolerances (each mode): the answer is that of the tolerance given NOW
+                alt = case["queries"][(qi + 1) % len(case["queries"])][1]
+                alt = alt if alt != tol else 2 * tol + 1
+                observe(frames, lambda: mgr.get_ground_truth_now_frame(t, alt))
+                a_now = observe(frames, lambda: mgr.get_ground_truth_now_frame(t, tol))
+                observe(frames, lambda: mgr.get_ground_truth_now_frame(t, alt, interpolate_ground_truth=True))
+                a_int = observe(frames, lambda: mgr.get_ground_truth_now_frame(t, tol, interpolate_ground_truth=True))
+                q["mgr_after_other_tolerance"] = "same" if (a_now == o_now and a_int == o_int) else {"other_tolerance": alt, "now": self._short(a_now), "interp": self._short(a_int)}
             res.append(q)
         mgr.ground_truth_frames = []
         return {"queries": res, "inputs_unchanged": snapshot(frames) == before}
@@ -622,6 +631,9 @@ class LookupCorr(Corr):
         if not obs["inputs_unchanged"]:
             return "a lookup modified the loaded frames (objects, stamps or transforms of the time line differ after the queries)"
         for (t, tol), q in zip(case["queries"], obs["queries"]):
+            if q.get("mgr_after_other_tolerance", "same") != "same":
+                return (f"lookup(t={t}, tol={tol}) through the manager right after the same time was asked with another tolerance differs from the "
+                        f"lookup itself: {str(q['mgr_after_other_tolerance'])[:300]}")
             if q.get("mgr_defaults", "same") != "same":
                 return (f"manager lookup at t={t} with the documented default tolerance (75 ms) / default interpolate_ground_truth differs from the "
                         f"explicit call: {str(q['mgr_defaults'])[:200]}")
